@@ -313,7 +313,7 @@ def check(tier, seed):
             if text2 != text:
                 run.violation("to_string:text-fixpoint", "serialising the rebuilt schema gives different text", dict(w, a=text[:300], b=text2[:300]), True)
     # --- C. history independence ------------------------------------------------------------------------------------
-    hist_schemas = ["directives", "base", "code"] if tier == "thorough" else ["directives", "base"]
+    hist_schemas = ["directives", "base", "code"]        # ("code" carries descriptions below the top level, whose layout depends on the indent option)
     for name in hist_schemas:
         fresh = {json.dumps(o, sort_keys=True): fresh_text(name, o) for o in OPTION_SETS}
         make = dict(schema_sources())[name]
